@@ -230,6 +230,7 @@ func (j *c08Job) RunUnit(i int, c *run.Ctx) {
 	for ri := range rels {
 		r := &rels[ri]
 		for di := 0; di < j.ds.n(); di++ {
+			c.Tick()
 			doc := j.ds.docs[m][di]
 			ok, detail, nontrivial, calls := c08Eval(r, doc, get)
 			c.Evals += int64(calls)
